@@ -6,7 +6,7 @@ cd /verif
 IDS="$@"; [ -z "$IDS" ] && IDS=$(ls seeded)
 for id in $IDS; do
   prop=$(python3 -c "import json;print(json.load(open('seeded/$id/meta.json'))['property'])")
-  if ! git -C /repo apply --check seeded/$id/patch.diff 2>/dev/null; then echo "$id $prop DOES-NOT-APPLY"; continue; fi
+  if ! git -C /repo apply --check /verif/seeded/$id/patch.diff 2>/dev/null; then echo "$id $prop DOES-NOT-APPLY"; continue; fi
   out=$(tools/try_patch.sh /verif/seeded/$id/patch.diff $prop $TIER 2>&1)
   rc=$(echo "$out" | grep -o "exit=[0-9]*" | tail -1)
   echo "$id $prop $rc $(echo "$out" | grep -c '^VIOLATION') violations"
